@@ -8,6 +8,8 @@
 //!  (d) convert(v→w): projection restricted to fields present in both versions is preserved through write+parse
 //!  (e) an independent walker over the written bytes (own header table, own record sizes, own nested-array table)
 //! A case carries at most ONE "risk" feature (a structural trigger predicate); the clean sub-space is checked strictly.
+//! Cases with a risk feature report under the single signature `risk=<predicate>`; for triage, the environment variable
+//! C13_RAW_SIGS=1 makes the worker emit the precise per-clause signatures for those cases as well.
 
 use serde_json::{Value, json};
 use std::fmt::Write as _;
@@ -1905,7 +1907,9 @@ fn check_model(c: &mut Case, m: &M2Model, vi: usize, risk: Risk, ctx: Value) {
     let conv = M2Converter::new();
     for (ti, &(tlabel, tver, tv)) in VERSIONS.iter().enumerate() {
         let pair = format!("{vlabel}->{tlabel}");
-        let use_converter = (ti + vi) % 2 == 0;
+        // both entry points for the same-version clause, alternating ones for the cross-version pairs
+        let modes: &[bool] = if ti == vi { &[true, false] } else if (ti + vi) % 2 == 0 { &[true] } else { &[false] };
+        for &use_converter in modes {
         let r = trap(|| if use_converter { conv.convert(&m, tver) } else { m.convert(tver) });
         let cm = match r {
             Err(p) => {
@@ -1965,6 +1969,7 @@ fn check_model(c: &mut Case, m: &M2Model, vi: usize, risk: Risk, ctx: Value) {
             }
         }
     }
+        }
 }
 
 // ------------------------------------------------------------------ main ----
@@ -1972,10 +1977,12 @@ fn check_model(c: &mut Case, m: &M2Model, vi: usize, risk: Risk, ctx: Value) {
 fn main() {
     let mut run = Run::new();
     let thorough = run.args.thorough();
-    let n_models: u64 = if thorough { 60_000 } else { 2_000 };
-    let n_skins: u64 = if thorough { 12_000 } else { 600 };
-    let n_anims: u64 = if thorough { 6_000 } else { 360 };
+    let n_models: u64 = if thorough { 300_000 } else { 10_000 };
+    let n_skins: u64 = if thorough { 48_000 } else { 2_400 };
+    let n_anims: u64 = if thorough { 24_000 } else { 1_200 };
     run.extra("versions", json!(VERSIONS.iter().map(|v| format!("{}={}", v.0, v.2)).collect::<Vec<_>>()));
+    run.extra("sections", json!(SECT_NAMES));
+    run.extra("risk_features", json!(RISK_SCHEDULE.iter().map(|r| r.tag()).collect::<std::collections::BTreeSet<_>>().into_iter().collect::<Vec<_>>()));
     run.extra("chunked_md21_writer", json!("unsupported: the crate has no MD21 writer (M2Model::write always emits MD20); chunked Legion+ not exercised"));
     let mut idx = 0u64;
     for k in 0..n_models {
